@@ -41,6 +41,10 @@ def make_case(rng):
             for vals in itertools.product(*[vm[n]["domain"] for n in names]):
                 table.append(eval(expr, {"__builtins__": {}}, dict(zip(names, vals))))
             c["table"] = table
+    # cost functions of variables, in the YAML form (an expression of the variable)
+    for v in case["variables"]:
+        if all(isinstance(x, int) and not isinstance(x, bool) for x in v["domain"]) and rng.random() < 0.3:
+            v["cost_expr"] = rng.choice(["%s * 0.5", "2 * %s + 1", "10 - %s", "0.1 * %s * %s"]).replace("%s", v["name"])
     # agents
     na = rng.choice([0, 1, 2, 3, 4])
     anames = ["a%d" % i for i in range(na)]
@@ -73,6 +77,13 @@ def build(case):
     from pydcop.dcop.relations import constraint_from_str
 
     variables = gen.build_variables(case)
+    from pydcop.dcop.objects import VariableWithCostFunc
+    from pydcop.utils.expressionfunction import ExpressionFunction
+
+    for v in case["variables"]:
+        if v.get("cost_expr"):
+            old = variables[v["name"]]
+            variables[v["name"]] = VariableWithCostFunc(v["name"], old.domain, ExpressionFunction(v["cost_expr"]), v.get("initial"))
     dcop = DCOP("c14", case["objective"])
     for v in variables.values():
         dcop.add_variable(v)
@@ -115,6 +126,15 @@ def compare(case, loaded, how):
             P.append(("initial-value", "%s: variable %s initial value %r, expected %r" % (how, n, lv.initial_value, v["initial"])))
         if lv.domain.name != "d_" + n or list(lv.domain.values) != v["domain"]:
             P.append(("variable-domain", "%s: variable %s domain %r" % (how, n, lv.domain)))
+        for val in v["domain"]:
+            want = eval(v["cost_expr"], {"__builtins__": {}}, {n: val}) if v.get("cost_expr") else 0
+            try:
+                got = lv.cost_for_val(val)
+            except Exception as e:
+                got = "raised %s" % type(e).__name__
+            if got != want and not (isinstance(got, (int, float)) and gen.close(got, want)):
+                P.append(("variable-cost", "%s: variable %s costs %r for value %r, expected %r (cost function %r)" % (how, n, got, val, want, v.get("cost_expr"))))
+                break
     # constraints
     if sorted(loaded.constraints) != sorted(c["name"] for c in case["constraints"]):
         P.append(("constraints", "%s: constraints %r, expected %r" % (how, sorted(loaded.constraints), sorted(c["name"] for c in case["constraints"]))))
